@@ -22,11 +22,38 @@ abbrev Template := List TEntry
 inductive OpKind | none | find | encrypt | decrypt | digest | sign | verify
   deriving DecidableEq, Repr, Inhabited
 
+inductive CMode | ecb | cbc | ctr | gcm
+  deriving DecidableEq, Repr, Inhabited
+
+/-- bookkeeping of an active symmetric cipher operation (SymmetricAlgorithm / OSSLEVPSymmetricAlgorithm) -/
+structure Cipher where
+  encrypt : Bool
+  bs : Nat                 -- block size of the algorithm (16 AES, 8 DES/3DES)
+  mode : CMode
+  padding : Bool
+  tagBytes : Nat := 0
+  buffered : Nat := 0      -- `getBufferSize()`: bytes fed and not yet returned
+  ctrLimit : Option Nat := none   -- CTR: bytes the counter still allows (`maximumBytes - counterBytes`)
+  deriving DecidableEq, Repr, Inhabited
+
+/-- what an active operation remembers besides its kind -/
+structure OpDetail where
+  sym : Option Cipher := none
+  outLen : Nat := 0        -- fixed output size: digest / MAC / signature / modulus
+  multi : Bool := true     -- `getAllowMultiPartOp`
+  single : Bool := true    -- `getAllowSinglePartOp`
+  reauth : Bool := false   -- CKA_ALWAYS_AUTHENTICATE: a context-specific login is required first
+  rawRsa : Bool := false   -- CKM_RSA_X_509
+  mech : Nat := 0
+  keyOid : Nat := 0
+  deriving DecidableEq, Repr, Inhabited
+
 structure Sess where
   slot : Nat
   rw : Bool
   op : OpKind := .none
   findRes : List Nat := []      -- handles still to be returned by C_FindObjects
+  opd : OpDetail := {}
   deriving DecidableEq, Repr, Inhabited
 
 structure ObjH where
@@ -88,8 +115,16 @@ structure Slot where
   tok : Option Tok
   deriving DecidableEq, Repr, Inhabited
 
+/-- slots.mechanisms -/
+inductive MechCfg
+  | all
+  | pos (names : List String)
+  | neg (names : List String)
+  deriving DecidableEq, Repr, Inhabited
+
 structure State where
   initialised : Bool := false
+  mechCfg : MechCfg := .all
   slots : List Slot := []
   handles : HTable := []
   counter : Nat := 0
